@@ -8,6 +8,7 @@
  * the start of the value buffer.
  * MODE 1: column reader history (column "x" of a symbolically chosen row group)
  * MODE 2: batch reader (symbolic batch_size, projection)          MODE 3: metadata + column readers in all I/O modes (C03)
+ * MODE 4: read_batch(k) / skip(k) with counts from the rows that exist up to INT64_MAX (buffers sized for the rows that exist)
  * OPENMODE: 0 buffer, 1 stdio, 2 mmap, 3 = all three in one path with byte-for-byte comparison (C03), 4 = one of the three
  *           per path (symbolic choice)
  * Table: column 0 "x" (type H_CT / H_OPT, or the legacy COLTYPE), column 1 "id" INT32 REQUIRED (= 1000 + row), with
@@ -70,6 +71,9 @@
 #endif
 #ifndef CODEC
 #define CODEC CARQUET_COMPRESSION_UNCOMPRESSED
+#endif
+#ifndef OPENMODE
+#define OPENMODE 0
 #endif
 #define PATH "/mem/t.parquet"
 
@@ -345,6 +349,43 @@ void harness(void) {
     for (int m = 1; m < nmodes; m++) {
         SYMX_ASSERT(TRN[m] == TRN[0] && memcmp(TR[m], TR[0], (size_t)TRN[0]) == 0, "same batch boundaries, values and null bitmaps in every I/O mode (byte-for-byte)");
     }
+#elif MODE == 4
+    /* huge counts: read_batch(k) / skip(k) with k far beyond the rows that exist ("read everything" callers).  The value and
+       level buffers are sized for the rows that exist: min(k, remaining) values is all a correct implementation may write. */
+    carquet_reader_t* r = open_mode(openmode, -1);
+    SYMX_ASSERT(r != NULL, "file written by carquet opens");
+    int g = NRG > 1 ? symx_choice(NRG, "row_group") : 0;
+    int base = rg_start(g), rows = RGS[g];
+    carquet_column_reader_t* cr = carquet_reader_get_column(r, g, 0, &err);
+    SYMX_ASSERT(cr != NULL, "column reader");
+    uint8_t* vals = malloc((size_t)(rows + 1) * vsize(0)); int16_t* defs = malloc((size_t)(rows + 1) * 2);
+    symx_assume(vals && defs);
+    int pos = 0;
+    if (symx_choice(2, "read_before")) {
+        int64_t n0 = carquet_column_read_batch(cr, vals, 2, defs, NULL);
+        SYMX_ASSERT(n0 == (rows < 2 ? rows : 2), "small read before");
+        if (n0 > 0) check_read(0, base, n0, vals, defs);
+        pos = (int)n0;
+    }
+    static const int64_t KB[6] = {2147483647LL, 2147483648LL, 2147483651LL, 4294967296LL, 4294967298LL, INT64_MAX};
+    int64_t k;
+    int sel = symx_choice(7, "k_sel");
+    if (sel < 6) k = KB[sel];
+    else { uint8_t kb8[8]; symx_make_symbolic(kb8, 8, "k"); memcpy(&k, kb8, 8); symx_assume(k >= rows); }       /* any k in [rows, INT64_MAX] */
+    int rem = rows - pos;
+    if (symx_choice(2, "op") == 0) {
+        int64_t n = carquet_column_read_batch(cr, vals, k, defs, NULL);
+        SYMX_ASSERT(n == rem, "read_batch(k) delivers min(k, remaining) rows [count >= rows, up to INT64_MAX]");
+        if (n > 0 && n <= rem) check_read(0, base + pos, n, vals, defs);
+    } else {
+        int64_t n = carquet_column_skip(cr, k);
+        SYMX_ASSERT(n == rem, "skip(k) advances by min(k, remaining) [count >= rows, up to INT64_MAX]");
+    }
+    SYMX_ASSERT(carquet_column_remaining(cr) == 0 && !carquet_column_has_next(cr), "nothing remains after a read/skip of at least the remaining rows [count >= rows, up to INT64_MAX]");
+    SYMX_ASSERT(carquet_column_read_batch(cr, vals, k, defs, NULL) == 0, "a further read delivers nothing [count >= rows, up to INT64_MAX]");
+    free(vals); free(defs);
+    carquet_column_reader_free(cr);
+    carquet_reader_close(r);
 #elif MODE == 3
     /* C03: metadata and column-reader content identical in the three I/O modes (symbolic read size), checksum verification
        on/off; batch data stays readable after further reads until the reader is closed */
